@@ -876,6 +876,14 @@ def main(tier, replay=None):
             log("CHECKER DISAGREEMENT:", dd)
         chk.finish()
         raise common.HarnessError("%d checker disagreements, %d failed jobs" % (len(disagreements), len(errors)))
+    # ---- (d) larger persistent trees: every single / double deletion, insertion and pop on mappings and hashmaps of every size
+    if not only or only in ("big", "cont"):
+        try:
+            from . import c18big
+            c18big.run(chk, tier)
+        except Exception:
+            import traceback
+            raise common.HarnessError("c18big failed: " + traceback.format_exc()[-600:]) if hasattr(common, "HarnessError") else RuntimeError(traceback.format_exc())
     return chk.finish()
 
 
